@@ -68,6 +68,22 @@ Section Expr.
              (rho glob : string -> V) (p : string) : V :=
     eval (translation_vars call_pars base_pars assigns rho glob) (subs call_pars base_pars assigns p).
 
+  (* generate._build_validity_check: in the base model's validity expression every identifier naming a
+     base parameter is replaced by the (parenthesised) expression of its argument; other identifiers
+     (constants, functions) are left alone.  Trees make the parenthesisation implicit. *)
+  Fixpoint esubst {N M} (s : N -> expr M) (e : expr N) : expr M :=
+    match e with
+    | Num v => Num v
+    | Var x => s x
+    | App f args => App f (map (esubst s) args)
+    end.
+  Definition valid_subs (call_pars base_pars : list string) (assigns : list (string * expr string)) (x : string) : expr cname :=
+    if memb x base_pars then subs call_pars base_pars assigns x else Var (COther x).
+  (* VALID(_v) as evaluated inside the dispersity loop, after TRANSLATION_VARS(_v) *)
+  Definition generated_valid (call_pars base_pars : list string) (assigns : list (string * expr string))
+             (rho glob : string -> V) (valid : expr string) : V :=
+    eval (translation_vars call_pars base_pars assigns rho glob) (esubst (valid_subs call_pars base_pars assigns) valid).
+
   (* ---- the specification: run the translation equations in order ---- *)
   Definition supd (e : string -> V) (x : string) (v : V) (y : string) : V := if String.eqb y x then v else e y.
   Definition run_translation (assigns : list (string * expr string)) (env : string -> V) : string -> V :=
